@@ -46,7 +46,7 @@ RULE = (
     "cost_promotion, rush_stopping, rush_promotion; synchronous Hyperband custom / geometric; DEHB custom / "
     "geometric; PBT; regularised evolution via baselines.REA or FIFOScheduler(searcher=RegularizedEvolution); "
     "MedianStoppingRule(FIFO); MOASHA with per-metric mode lists, all or a subset of the metrics flipped, scalar / default mode) x constructor arguments x metric table in "
-    "general position x 1-8 workers x arrival policy x optional failure plan x with/without max_resource_attr x "
+    "general position x 1-8 workers x arrival policy x optional failure plan (synchronous Hyperband also: a burst of failures in the first rung leaving fewer valid results than the next rung has slots) x sparse reporters and scripts ending before max_t with mixed-sign values (MOASHA) x with/without max_resource_attr x "
     "checkpointing; or one generated reporting history (1-3 metrics, 2-10 trials, random update batches). "
     "Distinct = digest of (kind, sequence of suggestion kinds and non-CONTINUE decisions with their levels, how the "
     "pair ended). Non-trivial = the pair was compared to its end without exclusion and contains at least one "
